@@ -299,6 +299,63 @@ def intrinsics(reg: Registry):
         it = reg.new(kind="lsq", x=as_sym(a[0]), y=as_sym(a[1]), call_style="poly", opts={"ncols": as_sym(deg) + 1, "rcond": k.get("rcond")})
         return CoefV(it)
 
+    def make_lsq_spline(ev, a, k):
+        """scipy.interpolate.make_lsq_spline(x, y, t, k): the least-squares B-spline on the knot vector t.  It has len(t) - k - 1 coefficients and refuses
+        (ValueError) when there are more coefficients than data points.  The knot vector is read as a concatenation of repeated end knots and slices of x."""
+        import re as _re
+        from .sym import ConcatV, RepeatV, RaisedV as _R
+        names = ["x", "y", "t", "k", "w", "axis", "check_finite"]
+        b = dict(zip(names, a))
+        for kk, v in k.items():
+            if kk not in names or kk in b:
+                raise _R("TypeError")
+            b[kk] = v
+        if b.get("w") is not None:
+            raise AnalysisError("make_lsq_spline with weights")
+        t, kk = b.get("t"), as_sym(b.get("k", sp.Integer(3)))
+        if not isinstance(t, ConcatV):
+            raise AnalysisError("make_lsq_spline with a knot vector that is not a concatenation the analysis can read")
+        length = sp.Integer(0)
+        interior = False
+        for part in t.parts:
+            if isinstance(part, RepeatV):
+                length += as_sym(part.count)
+            elif is_sym(part):
+                m_ = [s_ for s_ in sp.sympify(part).atoms(sp.Symbol) if s_.name.startswith("idx[")]
+                if not m_:
+                    length += 1
+                    continue
+                mm = _re.fullmatch(r"idx\[(-?\d*):(-?\d*)\]", m_[0].name)
+                if not mm:
+                    raise AnalysisError(f"knot vector part {part} is not a plain slice of the data")
+                lo = int(mm.group(1)) if mm.group(1) else 0
+                hi = int(mm.group(2)) if mm.group(2) else 0
+                length += (NROWS + hi if hi <= 0 else hi) - (NROWS + lo if lo < 0 else lo)
+                interior = True
+            else:
+                raise AnalysisError("knot vector part of an unsupported kind")
+        ncoef = sp.expand(length - kk - 1)
+        # admissible: spline orders 2..5, each below the number of sampled volumes
+        order_syms = sorted(ncoef.free_symbols - {NROWS}, key=str)
+        if len(order_syms) > 1:
+            raise AnalysisError("number of spline coefficients depends on more than the order and the number of volumes")
+        bad = []
+        for o_ in range(2, 6):
+            for nv in range(o_ + 1, o_ + 14):
+                env = {NROWS: nv}
+                if order_syms:
+                    env[order_syms[0]] = o_
+                if int(ncoef.subs(env)) > nv:
+                    bad.append((o_, nv, int(ncoef.subs(env))))
+                    break
+        if bad:
+            e = _R("InputAssumption", ev.here(None, None))
+            e.expected = "the interpolant can be built for every admissible order (spline: 2 to 5, below the number of sampled volumes)"
+            e.detail = ("make_lsq_spline is given a knot vector with more coefficients than data points for admissible orders: "
+                        + "; ".join(f"order {o_}, {nv} volumes -> {nc} coefficients" for o_, nv, nc in bad[:3]) + ": ValueError, the calculation cannot complete")
+            raise e
+        return reg.new(kind="spline", x=as_sym(b["x"]), y=as_sym(b["y"]), cls="make_lsq_spline", opts={"k": kk, "interior_knots": interior})
+
     def finfo(ev, a, k):
         from .sym import Obj, LibV
         t = a[0] if a else None
@@ -375,7 +432,7 @@ def intrinsics(reg: Registry):
     return {
         "interp.derivatives": krogh_derivatives, "poly.deriv": polyder,
         "ppoly.derivative": ppoly_derivative, "ppoly.derivative2": ppoly_derivative2, "spline.derivative": spline_derivative,
-        "scipy.interpolate.UnivariateSpline": spline,
+        "scipy.interpolate.UnivariateSpline": spline, "scipy.interpolate.make_lsq_spline": make_lsq_spline,
         "scipy.interpolate.InterpolatedUnivariateSpline": spline,
         "scipy.interpolate.PchipInterpolator": ppoly("PchipInterpolator"),
         "scipy.interpolate.Akima1DInterpolator": ppoly("Akima1DInterpolator"),
